@@ -235,10 +235,28 @@ let ops_c12 = [
   "mcldb", (fun f -> String.concat " | " (List.map show_row (trace opf_exec (nat_of_int 60000) (cldb_start (parse_val f.(1)) (parse_val f.(2))))));
 ]
 
+(* ---------------- C10 ---------------- *)
+let rec int_of_nat = function O -> 0 | S n -> 1 + int_of_nat n
+let parse_set t = List.map (fun x -> nat_of_int (int_of_string x)) (List.filter (fun x -> x <> "") (String.split_on_char ',' t))
+let parse_items t =
+  if t = "" then [] else
+  List.mapi (fun i it -> match String.split_on_char ';' it with
+    | [n; h] -> { idx = nat_of_int i; needs = parse_set n; has = parse_set h }
+    | [n] -> { idx = nat_of_int i; needs = parse_set n; has = [] }
+    | _ -> failwith "item") (String.split_on_char '|' t)
+let show_order o = String.concat "," (List.map (fun it -> string_of_int (int_of_nat it.idx)) o)
+let ops_c10 = [
+  "mtoposort", (fun f -> match toposort (parse_items f.(1)) with
+     | Ok o -> "OK " ^ show_order o | Fail -> "DEADLOCK" | Oof -> "OOF");
+  "mstages", (fun f -> match toposort (parse_items f.(1)) with
+     | Ok o -> "OK " ^ show_order o ^ " # " ^ String.concat "|" (List.map show_order (assign_stages o))
+     | Fail -> "DEADLOCK" | Oof -> "OOF");
+]
+
 (*OPS-INSERT*)
 
 let all_ops : (string, string array -> string) Hashtbl.t = Hashtbl.create 64
-let () = List.iter (fun l -> List.iter (fun (k, v) -> Hashtbl.replace all_ops k v) l) [ops_c20; ops_c08; ops_c07; ops_c04; ops_c06; ops_c12 (*OPS-LIST*)]
+let () = List.iter (fun l -> List.iter (fun (k, v) -> Hashtbl.replace all_ops k v) l) [ops_c20; ops_c08; ops_c07; ops_c04; ops_c06; ops_c12; ops_c10 (*OPS-LIST*)]
 
 let dispatch (f : string array) : string =
   match Hashtbl.find_opt all_ops f.(0) with
